@@ -3,7 +3,7 @@ import PanqecVerif.Model.Lattices.RotatedPlanar2DCode
 open Panqec
 
 /-! `lat RotatedPlanar2DCode <Lx> <Ly> qubits|stabs|stab <coord>|logx|logz|axis <coord>|
-    type <coord>|deform <name> <axis or -> <coord>|n|k` -/
+    type <coord>|deform <name> <axis or -> <coord>|rankfamily|n|k` -/
 namespace Drv
 
 def rotatedPlanar2DCodeModel (Lx Ly : Nat) : Lat2DModel where
@@ -12,6 +12,7 @@ def rotatedPlanar2DCodeModel (Lx Ly : Nat) : Lat2DModel where
   stabilizerType := RotatedPlanar2DCode.stabilizerType Lx Ly
   qubitAxis := RotatedPlanar2DCode.qubitAxis
   getDeformation := RotatedPlanar2DCode.getDeformation
+  rankFamily := (RotatedPlanar2DCode.lattice Lx Ly).stabs
 
 def handleLatRotatedPlanar2DCode : List String → Option String
   | "lat" :: "RotatedPlanar2DCode" :: lx :: ly :: rest =>
